@@ -121,6 +121,8 @@ pub fn execute<H: Helper>(
         Cmd::ViYankTo(ref mvt) => {
             if let Some(text) = s.line.copy(mvt) {
                 kill_ring.kill(&text, Mode::Append);
+                // a copy is not a kill: the next kill command must not extend the copied text
+                kill_ring.reset();
             }
         }
         Cmd::Newline => {
